@@ -12,6 +12,7 @@
 package c19
 
 import (
+	"github.com/superfly/litefs"
 	"context"
 	"encoding/json"
 	"fmt"
@@ -39,6 +40,8 @@ const ps = 512
 
 type Case struct {
 	Role    string `json:"role"`   // primary | replica | orphan
+	// FailedPromotion (replica only): before the request the replica won the lease once and had to give it back.
+	FailedPromotion bool `json:"failed_promotion,omitempty"`
 	Method  string `json:"method"`
 	Path    string `json:"path"`   // plain | pass | fwd | both | health
 	Cookie  string `json:"cookie"` // absent | malformed | behind | equal | ahead1 | far
@@ -118,8 +121,9 @@ func run1(t *testing.T, c Case) (res Result) {
 		}()
 		cl := lab.NewCluster(10 * time.Second)
 		defer cl.Close()
-		cl.AddNode("P", true, nil)
-		cl.AddNode("R1", false, nil)
+		failedPromotion := c.Role == "replica" && c.FailedPromotion
+		cl.AddNode("P", true, func(cfg *lab.NodeConfig) { cfg.DemoteDelay = 3 * time.Second })
+		cl.AddNode("R1", failedPromotion, nil)
 		var N *lab.Node
 		var img *oracle.Image
 		if c.Role == "orphan" {
@@ -157,6 +161,35 @@ func run1(t *testing.T, c Case) (res Result) {
 			N = cl.Nodes["P"]
 			if c.Role == "replica" {
 				N = cl.Nodes["R1"]
+			}
+			if failedPromotion {
+				// The replica wins the lease once (the primary is demoted), the step right after the acquisition fails,
+				// it gives the lease back and the former primary returns: a replica again, like any other.
+				prev, failed := "", false
+				cl.Svc.Script = func(node, call string) (lab.Deviation, bool) {
+					if node != "R1" {
+						return lab.Deviation{}, false
+					}
+					was := prev
+					prev = call
+					if call == "ClusterID" && was == "Acquire" && !failed {
+						failed = true
+						return lab.Deviation{Err: fmt.Errorf("injected: lease store unavailable")}, true
+					}
+					if call == "Acquire" && failed {
+						return lab.Deviation{Err: litefs.ErrPrimaryExists}, true
+					}
+					return lab.Deviation{}, false
+				}
+				cl.Nodes["P"].Store.Demote()
+				if !lab.WaitFor(30*time.Second, func() bool { return failed }) || !lab.WaitFor(60*time.Second, cl.Nodes["P"].Store.IsPrimary) {
+					res.Harness = "failed-promotion prelude did not complete"
+					return
+				}
+				if ok, why := cl.WaitConverged(20*time.Second, nil); !ok {
+					res.Harness = "converge after failed promotion: " + why
+					return
+				}
 			}
 		}
 		P := cl.Nodes["P"]
@@ -396,6 +429,12 @@ func TestCheck(t *testing.T) {
 			for _, ck := range []string{"absent", "ahead1", "far"} {
 				cases = append(cases, Case{Role: role, Method: m, Path: "plain", Cookie: ck, Deliver: -1, Tracked: "zero"})
 			}
+		}
+	}
+	// a replica that won the lease once and had to give it back (the step after the acquisition failed)
+	for _, m := range []string{"GET", "POST", "DELETE"} {
+		for _, p := range []string{"plain", "pass", "fwd"} {
+			cases = append(cases, Case{Role: "replica", Method: m, Path: p, Cookie: "absent", Deliver: -1, FailedPromotion: true})
 		}
 	}
 	pool := vlib.NewPool()
